@@ -566,3 +566,42 @@ func (p *Prog) CheckGuardedBy(spec GuardSpec) []Access {
 	}
 	return accs
 }
+
+// MustHoldClassX is MustHoldClass with calling context: a function that performs no operation on locks of the class
+// itself inherits what every one of its static call sites certainly holds (no go/defer sites, no use as a function value;
+// three levels). It decides "the caller took the lock, the helper does the work".
+func (p *Prog) MustHoldClassX(in ssa.Instruction, class string, mode int) bool {
+	return p.mustHoldClassX(in, class, mode, 0)
+}
+
+func (p *Prog) mustHoldClassX(in ssa.Instruction, class string, mode int, depth int) bool {
+	fn := in.Parent()
+	if fn == nil {
+		return false
+	}
+	li := p.Locks(fn)
+	if li.MustHoldClass(in, class, mode) {
+		return true
+	}
+	for _, op := range li.Ops {
+		if op.Key.Class == class {
+			return false
+		}
+	}
+	if depth >= 3 || fn.Parent() != nil || len(p.FuncValueUses(fn)) > 0 {
+		return false
+	}
+	callers := p.StaticCallers(fn)
+	if len(callers) == 0 {
+		return false
+	}
+	for _, c := range callers {
+		if _, isCall := c.(*ssa.Call); !isCall {
+			return false
+		}
+		if !p.mustHoldClassX(c.(ssa.Instruction), class, mode, depth+1) {
+			return false
+		}
+	}
+	return true
+}
